@@ -52,6 +52,9 @@ SHAPES = [
     ('array_deeper', "{ ARR if (i % 3 == 1) { EXIT } } write('.');"),
     ('two_levels', "ARR { ARR2 if (i % 3 == 1) { EXIT } write(','); } write('.');"),
     ('inner_loop', "ARR for (int j = 0; j < 2; j += 1) { ARR2 if (i % 3 == 1 and j == 1) { EXIT } } write('.');"),
+    # an earlier exit of the same loop taken BEFORE the iteration owns anything, then the array, then the exit under test
+    ('guard_continue_before_array', "if (i % 4 == 2) { write('g'); continue; } ARR if (i % 3 == 1) { EXIT } write('.');"),
+    ('guard_break_before_array', "if (i == 5) { write('G'); break; } ARR if (i % 3 == 1) { EXIT } write('.');"),
 ]
 
 
